@@ -432,38 +432,76 @@ Section C03.
   Qed.
 
   (* ---------------- the result guard ---------------- *)
+  (* the binding with which `run` invokes the body (CPython's binding of what FunctionCall passes on) *)
+  Definition model_binding (f : fn) (c : call) : outcome binding :=
+    py_bind (func_params f) (bound_src f ++ call_pos pc f c) (kw_names c).
+
   Theorem result_guard : forall f c bd a,
     f_ret f = Some a ->
-    (forall b cons v, bd b cons = Ok v -> rejected a v) ->
+    (forall b cons v, model_binding f c = Ok b -> bd b cons = Ok v -> rejected a v) ->
     exists e, fst (run pc check consumes f c bd) = Raise e.
   Proof.
     intros f c bd a Hret Hbd. rewrite (run_is_ref pc check consumes good). unfold run_ref.
     destruct (instance_of f c) as [inst|e]; [|simpl; eauto].
     destruct (assert_uses_kwargs pc f c) as [u|e]; [|simpl; eauto].
     destruct (args_phase pc check consumes f c inst astate0) as [st|e]; [|simpl; eauto].
-    unfold invoke. destruct (py_bind (func_params f) (bound_src f ++ call_pos pc f c) (kw_names c)) as [b|e]; [|simpl; eauto].
+    unfold invoke. destruct (py_bind (func_params f) (bound_src f ++ call_pos pc f c) (kw_names c)) as [b|e] eqn:Epb; [|simpl; eauto].
     destruct (bd b (a_cons st)) as [v|e] eqn:Eb; [|simpl; eauto].
     simpl. unfold ret_value. rewrite Hret. destruct (clazz_probe f c inst); [|eauto].
-    destruct (Hbd _ _ _ Eb (a_tv st)) as [e He]. destruct (check a v (a_tv st)) as [[uu|e'] tv']; simpl in He; [discriminate|eauto].
+    destruct (Hbd _ _ _ Epb Eb (a_tv st)) as [e He]. destruct (check a v (a_tv st)) as [[uu|e'] tv']; simpl in He; [discriminate|eauto].
   Qed.
 
-  (* the body ran and returned a value the checker rejects: the caller gets PedanticTypeCheckException *)
-  Theorem result_guard_exact : forall f c bd a,
-    f_ret f = Some a ->
-    (forall b cons, exists v, bd b cons = Ok v /\ rejected a v) ->
+  (* if the body ran, it ran once, on the binding above; what it raised reaches the caller, and a value the checker rejects is
+     replaced by PedanticTypeCheckException *)
+  Theorem result_guard_exact : forall f c bd a b,
+    f_ret f = Some a -> model_binding f c = Ok b ->
+    (forall cons v, bd b cons = Ok v -> rejected a v) ->
     (forall inst, instance_of f c = Ok inst -> clazz_probe f c inst = Ok tt) ->
     (forall v tv e, fst (check a v tv) = Raise e -> e = PTypeCheckC) ->
     snd (run pc check consumes f c bd) <> [] ->
-    fst (run pc check consumes f c bd) = Raise PTypeCheckC.
+    exists cons, snd (run pc check consumes f c bd) = [(b, cons)] /\
+      match bd b cons with
+      | Ok _ => fst (run pc check consumes f c bd) = Raise PTypeCheckC
+      | Raise e => fst (run pc check consumes f c bd) = Raise e
+      end.
   Proof.
-    intros f c bd a Hret Hbd Hprobe Hptc. rewrite (run_is_ref pc check consumes good). unfold run_ref.
+    intros f c bd a b Hret Hb Hbd Hprobe Hptc. rewrite (run_is_ref pc check consumes good). unfold run_ref.
     destruct (instance_of f c) as [inst|e] eqn:Ei; [|simpl; congruence].
     destruct (assert_uses_kwargs pc f c) as [u|e]; [|simpl; congruence].
     destruct (args_phase pc check consumes f c inst astate0) as [st|e]; [|simpl; congruence].
-    unfold invoke. destruct (py_bind (func_params f) (bound_src f ++ call_pos pc f c) (kw_names c)) as [b|e]; [|simpl; congruence].
-    destruct (Hbd b (a_cons st)) as [v [Ev Hrej]]. rewrite Ev. simpl. intros _.
-    unfold ret_value. rewrite Hret, (Hprobe inst eq_refl).
-    destruct (Hrej (a_tv st)) as [e He]. destruct (check a v (a_tv st)) as [[uu|e'] tv'] eqn:Ec; simpl in He; [discriminate|].
+    unfold invoke. unfold model_binding in Hb. rewrite Hb. intros _. exists (a_cons st).
+    destruct (bd b (a_cons st)) as [v|e] eqn:Ev; simpl; [|split; reflexivity].
+    split; [reflexivity|]. unfold ret_value. rewrite Hret, (Hprobe inst eq_refl).
+    destruct (Hbd _ _ Ev (a_tv st)) as [e He]. destruct (check a v (a_tv st)) as [[uu|e'] tv'] eqn:Ec; simpl in He; [discriminate|].
     f_equal. eapply Hptc. rewrite Ec. reflexivity.
+  Qed.
+
+  (* ---------------- generator functions: what the call returns ---------------- *)
+  Lemma gen_types_shape : forall a y s r, gen_types pc a = Ok (y, s, r) ->
+    exists o, In o [TGenerator; TIterable; TIterator] /\
+      ((a = AGeneric SpTyping o [y] /\ s = ANone /\ r = ANone) \/ a = AGeneric SpTyping o [y; s; r]).
+  Proof.
+    intros a y s r H. unfold gen_types in H. rewrite (gf_bases pc G) in H.
+    destruct a; try discriminate. destruct sp; try discriminate.
+    destruct (existsb (tname_eqb o) [TGenerator; TIterable; TIterator]) eqn:Eo; [|discriminate].
+    apply existsb_exists in Eo as [o' [Hin Heq]]. apply tname_eqb_eq in Heq. subst o'.
+    exists o. split; [assumption|].
+    destruct args as [|x [|x2 [|x3 [|x4 l]]]]; try discriminate; inversion H; subst; [left|right]; repeat split; reflexivity.
+  Qed.
+
+  (* the GeneratorWrapper a call of a generator function returns carries exactly the yield / send / return types of the return
+     annotation; nothing of the body has run *)
+  Theorem run_gen_types : forall f c g j, run_gen pc check consumes f c = (Ok g, j) ->
+    j = [] /\ exists a t, f_ret f = Some a /\ gen_types pc a = Ok t /\ g_types g = Some t.
+  Proof.
+    intros f c g j H. rewrite (run_gen_is_ref pc check consumes good) in H. unfold run_gen_ref in H.
+    destruct (instance_of f c) as [inst|e]; [|discriminate].
+    destruct (assert_uses_kwargs pc f c) as [u|e]; [|discriminate].
+    destruct (args_phase pc check consumes f c inst astate0) as [st|e]; [|discriminate].
+    unfold invoke_gen in H. destruct (py_bind (func_params f) (bound_src f ++ call_pos pc f c) (kw_names c)) as [b|e]; [|discriminate].
+    unfold ret_gen in H. destruct (f_ret f) as [a|] eqn:Er; [|discriminate]. simpl in H.
+    destruct (clazz_probe f c inst); [|discriminate].
+    destruct (gen_types pc a) as [t|e] eqn:Et; [|discriminate]. inversion H; subst. split; [reflexivity|].
+    exists a, t. split; [reflexivity|]. split; [exact Et|reflexivity].
   Qed.
 End C03.
